@@ -81,7 +81,28 @@ func ValidateServices(i Input) error {
 		}
 		errs = append(errs, grouperror.Prefix(fmt.Sprintf("%+q: ", n), sErrs...))
 	}
+	errs = append(errs, validateUniqueGetters(i.Services))
 	return grouperror.Prefix("services: ", errs...)
+}
+
+// validateUniqueGetters reports getters shared by more than one service,
+// they would be generated as duplicate methods of the container.
+func validateUniqueGetters(services map[string]Service) error {
+	owners := make(map[string][]string)
+	for _, n := range maps.Keys(services) {
+		s := services[n]
+		if ptr.Dereference(s.Todo, DefaultServiceTodo) || s.Getter == nil {
+			continue
+		}
+		owners[*s.Getter] = append(owners[*s.Getter], n)
+	}
+	var errs []error
+	for _, g := range maps.Keys(owners) {
+		if len(owners[g]) > 1 {
+			errs = append(errs, fmt.Errorf("getter %+q is used by more than one service: %+q", g, owners[g]))
+		}
+	}
+	return grouperror.Join(errs...)
 }
 
 func ValidateServiceName(n string) error {
